@@ -442,8 +442,9 @@ static void destroy_obj(int o) {
 extern "C" void h_step() {
   build_state();
   int op = nondet_int();
-  int i = nondet_int(), j = nondet_int();
-  __CPROVER_assume(0 <= i && i < K && 0 <= j && j < K);
+  /* handle indices are interchangeable (attachments and ring order are fully symbolic), so without loss of
+     generality the operation acts on handle 0 and its second operand is handle 0 itself or handle 1 */
+  int i = 0, j = nondet_bool() ? 0 : 1;
   __CPROVER_assume(0 <= op && op <= @MAXOP@);
 #ifdef VERIF_OP
   __CPROVER_assume(op == VERIF_OP);   /* one obligation group per operation kind */
@@ -482,7 +483,7 @@ extern "C" void h_step() {
 extern "C" void h_free_law() {
   /* after free(), every handle that referred to the object reports isInitialized() == false */
   build_state();
-  int i = nondet_int(); __CPROVER_assume(0 <= i && i < K);
+  int i = 0;    /* w.l.o.g., see h_step */
   int o = att[i];
   hd[i]->free();
   for (int k = 0; k < K; ++k)
@@ -629,7 +630,7 @@ def build(ctx):
                     entry=entry, lang='cpp', unwind=k + 3, defines=['VERIF_K=%d' % k] + defs, min_obligations=10,
                     functions=fns + gcfiles, canary='CANARY', canary_label='canary', strength='proof',
                     bound='inductive step over K=%d handles, 2 backend objects (history length unbounded)' % k,
-                    object_bits=10, timeout=900, ignore=r'^verif_alive: \[pointer_primitives\]',
+                    object_bits=10, timeout=2400, ignore=r'^verif_alive: \[pointer_primitives\]',
                     param='family=%s K=%d' % (fam, k),
                     replay=replay_C01.make_replay(fam)))
     return groups
